@@ -103,10 +103,13 @@ def exact_one(agent, b, method: str, tau: float, rng: random.Random, patience: f
     from resonaate.physics.time.stardate import ScenarioTime
     v0, g, a = b["law"]
     burn, dt = b["burn"], b["dt"]
-    parts = [(burn["ts"], burn["te"])]
+    parts = [(burn["ts"], burn["te"], 1)]
     if variant in ("split", "split-rev"):
         mid = (burn["ts"] + burn["te"]) // 2
-        parts = [(burn["ts"], mid), (mid, burn["te"])][::-1 if variant == "split-rev" else 1]
+        parts = [(burn["ts"], mid, 1), (mid, burn["te"], 1)][::-1 if variant == "split-rev" else 1]
+    two = b.get("two")          # two burns of one satellite whose intervals overlap or coincide (see two_burn_behaviours)
+    if two:
+        parts = [tuple(q) for q in two["parts"]]
     imp_tick = burn["ts"] + 0.5
     cimp = b.get("imp") if b.get("imp", {}).get("at", 0) > 0 else None
     emb = K.Embed(rng, tau, ALPHA)
@@ -122,9 +125,9 @@ def exact_one(agent, b, method: str, tau: float, rng: random.Random, patience: f
         # Scenario.stepForward: the active burn is handled (appended) again at every step (spec action Deliver)
         if cimp and cimp["first"] and lb < cimp["at"] <= ub:     # listed before the burn in the configuration
             agent.appendPropagateEvent(ScheduledECIImpulse(ScenarioTime(cimp["at"] * tau), cimp["dv"] * emb.vu * emb.u, agent.simulation_id))
-        for p_ts, p_te in parts:
+        for p_ts, p_te, mult in parts:
             if burn["kind"] != "none" and p_ts <= ub and p_te > lb:
-                agent.appendPropagateEvent(emb.thrust_event(burn["kind"], a, p_ts * tau, p_te * tau, agent.simulation_id))
+                agent.appendPropagateEvent(emb.thrust_event(burn["kind"], a * mult, p_ts * tau, p_te * tau, agent.simulation_id))
         if cimp and not cimp["first"] and lb < cimp["at"] <= ub:
             agent.appendPropagateEvent(ScheduledECIImpulse(ScenarioTime(cimp["at"] * tau), cimp["dv"] * emb.vu * emb.u, agent.simulation_id))
         if variant == "impulse" and lb < imp_tick <= ub:       # an impulse is handled once, in the step that contains it
@@ -161,6 +164,11 @@ def exact_one(agent, b, method: str, tau: float, rng: random.Random, patience: f
                     f"{burn['kind']} burn [{burn['ts']},{burn['te']}) ticks, Dt={dt}, impulse of {cimp['dv']} at tick {cimp['at']} "
                     f"({order}): velocity {vv:.9f} after step {k + 1}, spec says {want_v} (difference {miss / a:+.6f} ticks of thrust)",
                     {"step": k, "velocity": vv, "spec": want_v}), worst, k
+        if two and not K.close(vv, want_v):
+            return (f"exact-law:{two['name']}:thrust-differs-from-the-sum-of-the-burns",
+                    f"{burn['kind']} burns {[f'[{q[0]},{q[1]}) x{q[2]}' for q in parts]} ticks of one satellite, Dt={dt}: velocity "
+                    f"{vv:.9f} after step {k + 1}, the sum of the two burns' effects gives {want_v} "
+                    f"({(vv - want_v) / a:+.6f} ticks of unit thrust)", {"step": k, "velocity": vv, "spec": want_v}), worst, k
         if not K.close(vv, want_v):
             on_obs = (vv - (v0 + g * ub)) / a          # observed thrust time (ticks) so far
             on_want = (want_v - (v0 + g * ub)) / a
@@ -196,7 +204,7 @@ def exact_replay(ctx: Ctx, behs, rng: random.Random, patience: float = 20.0, sto
             sub_seed = rng.getrandbits(32)
             try:
                 bad, worst, steps = exact_one(agent, b, method, tau, random.Random(sub_seed), patience, variant)
-                if bad and pre and ":impulse-at-burn-" not in bad[0]:
+                if bad and pre and ":impulse-at-burn-" not in bad[0] and not b.get("two"):
                     bad = (bad[0].replace("exact-law:", pre), f"[{variant} variant] " + bad[1], bad[2])
             except tlc.MachineryError:
                 raise
@@ -207,7 +215,7 @@ def exact_replay(ctx: Ctx, behs, rng: random.Random, patience: float = 20.0, sto
             stats["steps"] += steps
             stats["max_rel_err"] = max(stats["max_rel_err"], worst if bad is None else 0.0)
             key = ("exact" + variant, tuple(b["law"]), b["dt"], b["nsteps"], b["burn"]["ts"], b["burn"]["te"], b["burn"]["kind"], method,
-                   tuple(sorted(b.get("imp", {}).items())))
+                   tuple(sorted(b.get("imp", {}).items())), str(b.get("two", {}).get("parts")))
             ctx.case(key, nontrivial=b["burn"]["kind"] != "none",
                      sample={"part": "exact", "law": b["law"], "dt": b["dt"], "nsteps": b["nsteps"], "burn": b["burn"],
                              "method": method, "tau_s": tau} if i % 701 == 3 else None)
@@ -221,6 +229,46 @@ def exact_replay(ctx: Ctx, behs, rng: random.Random, patience: float = 20.0, sto
                                **detail})
     ctx.traces_validated += stats["behaviours"]
     return stats
+
+
+def two_burn_behaviours(behs, rng: random.Random, n: int):
+    """Two finite burns of ONE satellite whose intervals overlap (B nested inside A) or coincide (same interval, different
+    acceleration).  The law is linear, so the exact states are sums of the spec's own behaviours:
+        overlap        X = X_A + X_B - X_none          same interval   X = X_none + 3 (X_A - X_none)   (a and 2a)
+    every number still comes from TLC (three behaviours with the same law, Dt, NSteps)."""
+    idx = {}
+    for b in behs:
+        idx[(tuple(b["law"]), b["dt"], b["nsteps"], b["burn"]["kind"], b["burn"]["ts"], b["burn"]["te"])] = b
+    out = {"overlapping-burns": [], "same-interval-burns": []}
+    pool = [b for b in behs if b["burn"]["kind"] != "none" and b["burn"]["te"] - b["burn"]["ts"] >= 3]
+    rng.shuffle(pool)
+    for a_ in pool:
+        base = (tuple(a_["law"]), a_["dt"], a_["nsteps"])
+        none = idx.get((*base, "none", 0, 0))
+        if none is None:
+            continue
+        ts, te, kind = a_["burn"]["ts"], a_["burn"]["te"], a_["burn"]["kind"]
+
+        def combine(f, other=None):
+            hist = []
+            for j, call in enumerate(a_["hist"]):
+                xa, x0 = call["outs"][0][0], none["hist"][j]["outs"][0][0]
+                xb = other["hist"][j]["outs"][0][0] if other else None
+                hist.append(dict(call, outs=[[[f(xa[c], x0[c], xb[c] if xb else 0) for c in range(2)]]]))
+            return hist
+        if len(out["overlapping-burns"]) < n:
+            s2 = rng.randrange(ts + 1, te - 1)
+            e2 = rng.randrange(s2 + 1, te)
+            inner = idx.get((*base, kind, s2, e2))
+            if inner is not None:
+                out["overlapping-burns"].append(dict(a_, hist=combine(lambda xa, x0, xb: xa + xb - x0, inner),
+                                                     two={"name": "overlapping-burns", "parts": [(ts, te, 1), (s2, e2, 1)]}))
+        if len(out["same-interval-burns"]) < n:
+            out["same-interval-burns"].append(dict(a_, hist=combine(lambda xa, x0, xb: x0 + 3 * (xa - x0)),
+                                                   two={"name": "same-interval-burns", "parts": [(ts, te, 1), (ts, te, 2)]}))
+        if all(len(v) >= n for v in out.values()):
+            break
+    return out
 
 
 # ------------------------------------------------------------------ (b) real scenario + twin
@@ -491,6 +539,10 @@ def run(ctx: Ctx):
     ctx.extra["exact_zero_impulse_mid_burn"] = exact_replay(ctx, long_burns[::8 if ctx.quick else 4], rng, variant="impulse")
     ctx.extra["exact_back_to_back_burns"] = exact_replay(ctx, long_burns[1::8 if ctx.quick else 4], rng, variant="split")
     ctx.extra["exact_back_to_back_burns_reversed_queue"] = exact_replay(ctx, long_burns[5::8 if ctx.quick else 4], rng, variant="split-rev")
+    # two burns of one satellite with overlapping / identical intervals: the C15 statement speaks of every scheduled burn,
+    # whatever else is scheduled (sum of the accelerations); oracle = sums of the spec's behaviours (linear law)
+    for name, lst in two_burn_behaviours(behs, rng, 40 if ctx.quick else 400).items():
+        ctx.extra["exact_" + name.replace("-", "_")] = exact_replay(ctx, lst, rng, variant=name)
     # a companion impulse posed by the SPEC: at any tick strictly inside a step - in particular exactly at the burn's start
     # or end (two event roots at one stop) - listed before or after the burn; the spec's integers are the oracle
     _, with_imp = K.run_spec(ctx, "imp", "Kinematics.tla Mode=steps with a companion impulse (any tick inside a step, both queue orders)",
